@@ -218,3 +218,74 @@ func ruleDateFall(p *Prog, r *Report) {
 		r.OK("DATEFALL", key, at, fmt.Sprintf("%d layouts, %d returns: each is the plain parse's own result or under a successful earlier parse", nParse, nRet))
 	}
 }
+
+// ruleSeqExit: the loops of the tokenizer that walk the children of an element or the items of an rdf:Seq/Bag/Alt
+// (readTag, readSeqTags) leave only when the tokenizer says so: on an error of a callee or on a boolean answer of
+// one (isEndTag, hasAttribute …). An exit controlled by an integer comparison — an item counter against a limit —
+// cuts an array short, and everything after it in the packet with it.
+func ruleSeqExit(p *Prog, r *Report) {
+	for _, fn := range []string{"readSeqTags", "readTag"} {
+		f := p.Func("xmp", "*xmpReader", fn)
+		if f == nil {
+			r.Undecided("SEQEXIT", "xmp.(*xmpReader)."+fn, "-", "unresolved anchor")
+			continue
+		}
+		for li, l := range findLoops(f) {
+			key := fmt.Sprintf("xmp.(*xmpReader).%s | loop #%d leaves only on the tokenizer's word", fn, li+1)
+			at := p.posStr(blockPos0(l.Head))
+			bad, und := "", ""
+			n := 0
+			for _, ifi := range exitTests(l) {
+				n++
+				var classify func(v ssa.Value, d int) string
+				classify = func(v ssa.Value, d int) string {
+					if d > 4 {
+						return "?"
+					}
+					switch x := v.(type) {
+					case *ssa.Call:
+						return ""
+					case *ssa.UnOp:
+						if x.Op == token.NOT {
+							return classify(x.X, d+1)
+						}
+						return "?"
+					case *ssa.Phi:
+						for _, e := range x.Edges {
+							if w := classify(e, d+1); w != "" {
+								return w
+							}
+						}
+						return ""
+					case *ssa.Const:
+						return ""
+					case *ssa.BinOp:
+						if isErrorType(x.X.Type()) || isErrorType(x.Y.Type()) {
+							return ""
+						}
+						if isIntType(x.X.Type()) && isIntType(x.Y.Type()) {
+							return "an integer comparison (" + shortVal(x.X) + " " + x.Op.String() + " " + shortVal(x.Y) + ")"
+						}
+						return "?"
+					}
+					return "?"
+				}
+				switch w := classify(ifi.Cond, 0); w {
+				case "":
+				case "?":
+					und = "exit test " + shortVal(ifi.Cond) + " at " + p.posStr(instrPos(ifi)) + " not classified"
+				default:
+					bad = "the loop can leave on " + w + " at " + p.posStr(instrPos(ifi)) + ": a count of items or tags, not the document, decides where an array ends — the remaining items and every property after them are lost"
+				}
+			}
+			switch {
+			case bad != "":
+				r.Bad("SEQEXIT", key, at, bad)
+			case und != "":
+				r.Undecided("SEQEXIT", key, at, und)
+			default:
+				r.OK("SEQEXIT", key, at, fmt.Sprintf("%d exit tests: callee errors and boolean answers of the tokenizer only", n))
+			}
+		}
+	}
+}
